@@ -1,5 +1,6 @@
 """C08 - float, boolean and keyword parameters convert to the exact denoted value; accept lists."""
 from .. import facts, fdai, scpi_models as M, sym
+from . import contrib as CB_
 from ..fdai import EnumV, AggV, K, SymV, RefV, Cell, Loc, TOP, load
 from . import dispatch as D, convert as C
 
@@ -87,7 +88,7 @@ def float_delegation(R, rule="R08.2", fty_only=None):
                 continue
             g = (pc[0].extra or {}).get("gargs") or ()
             parses.add(tuple(g))
-            if "tok-DecimalNumericProgramData-0" not in repr(pc[0].args[0]):
+            if not CB_.holds(pc[0].args[0], "tok-DecimalNumericProgramData-0"):
                 good = False
             if pc[0].name != "lexical_core::parse":
                 good = False  # parse_partial would accept a prefix
@@ -224,7 +225,7 @@ def run(R, tier, configs=("dflt",)):
         ass = [e for e in r.trace if e.kind == "assume" and e.name == "sym" and isinstance(e.args[0][2], tuple) and e.args[0][2][0] == "ret" and e.args[0][2][1].endswith("eq_ignore_ascii_case")]
         true_lit = None
         for c_, a_ in zip(cmpc, ass):
-            if "tok-CharacterProgramData-0" not in repr(c_.args[0]) and "tok-CharacterProgramData-0" not in repr(c_.args[1]):
+            if not CB_.holds(c_.args[0], "tok-CharacterProgramData-0") and not CB_.holds(c_.args[1], "tok-CharacterProgramData-0"):
                 good = False
             if a_.args[1] is True:
                 true_lit = C_bytes(c_.args)
